@@ -155,7 +155,11 @@ func (c *checker) checkStarted(s *server, e *sim.Ev) {
 		c.violate("C10", "restart-wrong-term", e.Seq, "%s restarted reporting term %d but its durable term was %d when it started and is %d now", key, term, s.startTerm, want)
 	}
 	if term < s.startMaxTerm {
-		c.violate("C06", "term-decrease-across-restart", e.Seq, "%s restarted with term %d after having reported term %d", key, term, s.startMaxTerm)
+		sig := "term-decrease-across-restart"
+		if s.termRaced {
+			sig = "term-decrease-across-restart-after-concurrent-writers"
+		}
+		c.violate("C06", sig, e.Seq, "%s restarted with term %d after having reported term %d", key, term, s.startMaxTerm)
 	}
 	if term > s.maxTerm {
 		s.maxTerm = term
